@@ -361,6 +361,7 @@ defvjp(anp.repeat, grad_repeat)
 def grad_tile(ans, x, reps):
     reps = [reps] if anp.isscalar(reps) else reps
     x_shape = anp.shape(x)
+    reps = [1] * (len(x_shape) - len(reps)) + list(reps)  # np.tile left-pads reps with ones
 
     def vjp(g):
         for axis, rep in enumerate(reps):
